@@ -41,8 +41,9 @@ struct Log
     size_t base_len = 0;
     size_t max_events = 2000000;
     bool overflow = false;
+    long ctxmut = 0;
     void add(Event&& e) { if (ev.size() < max_events) ev.emplace_back(std::move(e)); else overflow = true; }
-    void reset() { ev.clear(); cur.clear(); next_id = 0; base = nullptr; base_len = 0; overflow = false; }
+    void reset() { ev.clear(); cur.clear(); next_id = 0; base = nullptr; base_len = 0; overflow = false; ctxmut = 0; }
 };
 inline thread_local Log tl_log;
 
@@ -312,6 +313,33 @@ struct byte_lexer
     }
 };
 
+// ---------------------------------------------------------------- contexts (C13)
+struct Ctx { int mut = 0; int tag = 7; };
+struct CtxMO { int mut = 0; int tag = 9; CtxMO() = default; CtxMO(const CtxMO&) = delete; CtxMO& operator=(const CtxMO&) = delete; CtxMO(CtxMO&&) = default; };
+inline thread_local const void* tl_ctx_addr = nullptr;
+
+// contextual rule functor (attached with >>=): logs which object it was handed (identity, constness), mutates it if allowed
+struct RuleFC
+{
+    int r;
+    template<typename C, typename... A>
+    Node operator()(C&& ctx, A&&... a) const
+    {
+        auto& L = tl_log;
+        auto tr = std::make_shared<Tree>();
+        tr->kind = 1; tr->sym = r;
+        std::vector<long> ids, lines, cols;
+        (take_arg(*tr, ids, lines, cols, std::move(a)), ...);
+        tr->id = L.next_id++;
+        constexpr bool is_const = std::is_const_v<std::remove_reference_t<C>>;
+        long same = static_cast<const void*>(&ctx) == tl_ctx_addr ? 1 : 0;
+        if constexpr (!is_const && !std::is_same_v<std::decay_t<C>, ctpg::no_type>) ctx.mut++;
+        Event e; e.k = "ccall"; e.a = { r, tr->id, same, is_const ? 1 : 0 }; e.lst = { ids, lines, cols };
+        L.add(std::move(e));
+        return Node(tr);
+    }
+};
+
 // ---------------------------------------------------------------- job / trace plumbing
 struct Job
 {
@@ -319,6 +347,7 @@ struct Job
     int buf = 0;        // 0 string_view_buffer, 1 string_buffer, 2 cstring_buffer, 3 checked buffer
     int stream = 0;     // 0 capture_stream, 1 no stream overload, 2 std::ostream
     bool verbose = true, ws = true, nl = true;
+    int ctx = 0;        // 0 parse(); 1 lvalue; 2 const lvalue; 3 rvalue; 4 move-only lvalue; 5 move-only rvalue
     std::string bytes;
 };
 
@@ -342,6 +371,7 @@ inline std::vector<Job> read_jobs(const char* path)
         std::istringstream is(line);
         Job j; std::string hex; int v, w, n;
         is >> j.id >> j.buf >> j.stream >> v >> w >> n >> hex;
+        if (!(is >> j.ctx)) j.ctx = 0;
         j.verbose = v; j.ws = w; j.nl = n; j.bytes = unhex(hex);
         jobs.push_back(j);
     }
@@ -420,7 +450,12 @@ std::optional<Node> parse_with(const P& p, const Job& j, std::string& stream_tex
         }
         if (j.stream == 2) { std::ostringstream os; auto r = p.parse(o, buf, os); stream_text = os.str(); return r; }
         capture_stream cs;
-        return p.parse(o, buf, cs);
+        if (j.ctx == 0) return p.parse(o, buf, cs);
+        if (j.ctx == 1) { Ctx c; tl_ctx_addr = &c; auto r = p.context_parse(c, o, buf, cs); L.ctxmut = c.mut; return r; }
+        if (j.ctx == 2) { const Ctx c; tl_ctx_addr = &c; auto r = p.context_parse(c, o, buf, cs); L.ctxmut = c.mut; return r; }
+        if (j.ctx == 3) { Ctx c; tl_ctx_addr = &c; auto r = p.context_parse(std::move(c), o, buf, cs); L.ctxmut = c.mut; return r; }
+        if (j.ctx == 4) { CtxMO c; tl_ctx_addr = &c; auto r = p.context_parse(c, o, buf, cs); L.ctxmut = c.mut; return r; }
+        { CtxMO c; tl_ctx_addr = &c; auto r = p.context_parse(std::move(c), o, buf, cs); L.ctxmut = c.mut; return r; }
     };
     if (j.buf == 1) { buffers::string_buffer b{std::string(j.bytes)}; return go(b); }
     if (j.buf == 3) { checked_buffer b(j.bytes, 0); return go(b); }
@@ -453,6 +488,7 @@ void run_job(const P& p, const Job& j, const std::string& gid, std::string& out)
     out += "{\"id\":"; jstr(out, j.id);
     out += ",\"g\":"; jstr(out, gid);
     out += ",\"buf\":" + std::to_string(j.buf) + ",\"stream\":" + std::to_string(j.stream);
+    out += ",\"ctx\":" + std::to_string(j.ctx) + ",\"ctxmut\":" + std::to_string(L.ctxmut);
     out += ",\"verbose\":" + std::to_string(j.verbose) + ",\"ws\":" + std::to_string(j.ws) + ",\"nl\":" + std::to_string(j.nl);
     out += ",\"bytes\":"; jbytes(out, j.bytes);
     out += ",\"ok\":"; out += res.has_value() ? "true" : "false";
